@@ -331,7 +331,7 @@ pub fn positions(roots: &Value, tags: &str, seed: u64, extra_walk: u64) -> Vec<B
 }
 
 pub fn record_iter(opts: &Opts) -> i32 {
-    let roots = read_json_file(&opts.str("roots", "/verif/spec/roots.json"));
+    let roots = read_json_file(&opts.str("roots", &crate::util::default_roots()));
     let seed = opts.num("seed", 1);
     let shard = opts.num("shard", 0);
     let shards = opts.num("shards", 1);
